@@ -60,6 +60,7 @@ structure Prot where
   objects : List (String × Obj) := []
   files : List (String × String) := []
   items : List String := []
+  app : Bool := true          -- the process-wide application singleton `Application::m_Instance` is set (application.cpp:49,83-84)
   deriving DecidableEq, Repr, Inhabited
 
 inductive UnOp | negate | logicalNegate
@@ -234,6 +235,10 @@ structure Cfg where
   refGetSandboxed : Bool := true             -- generated: the literal `sandboxed` argument in Reference::Get (reference.cpp:22)
   initDictOff : Bool := true                 -- generated: `if (frame.Sandboxed) init_dict = false;` (expression.cpp:758-759)
   importSandboxed : Bool := true             -- generated: VMOps::FindVarImport reads through GetField(…, frame.Sandboxed, …) (vmops.hpp:43-53)
+  /-- Types whose instantiation has an effect on process-wide state: `Type::Instantiate` builds the object, the script drops
+      it, and the destructor runs.  `Application::~Application()` (lib/base/application.cpp:105-108) executes
+      `m_Instance = nullptr` unconditionally, so this is true of every instantiable type derived from Application. -/
+  ctorEffect : String → Bool := fun _ => false
   native : String → Option Native
   hidden : String → String → Bool            -- type, field ↦ FANoUserView
   tmpl : String → Option Expr := fun _ => none      -- templates known to ConfigItem (import)
@@ -504,7 +509,13 @@ def callValue (cfg : Cfg) (sb : Bool) (ev : Expr → M Out) (evArgs : List Expr 
             let r ← ev body
             M.modify fun e => { e with locals := saved }
             pure (r.1, .ok)
-  | .type_ t => evArgs args fun vs =>                                 -- VMOps::ConstructorCall (:463-474)
+  | .type_ t => evArgs args fun vs =>                                 -- VMOps::ConstructorCall (:463-474): BEFORE the whitelist test (:481)
+      if cfg.ctorEffect t then                                        -- vmops.hpp:81 type->Instantiate(args)
+        if vs.isEmpty then do                                         -- the temporary dies with the script's value
+          M.modify fun e => { e with prot := { e.prot with app := false } }     -- application.cpp:105-108
+          pure (.empty, .ok)
+        else M.fail (.script "Constructor does not take any arguments.")      -- objectfactory: refused before anything is built
+      else
       match t, vs with
       | "String", [] => pure (.str "", .ok)
       | "String", [v] => pure (.str v.toStr, .ok)
@@ -732,6 +743,22 @@ def outcomeOf {α} : Except Err α → Outcome
   | .error (.notSafe _) => .sandbox
   | .error (.hidden _ _) => .hidden
   | .error _ => .err
+
+/-- `EventsFilter::Push` (lib/remote/eventqueue.cpp:250-275), the `/v1/events` path, and likewise
+    `EventQueue::ProcessEvent` (:30-56): for every subscribed filter a FRESH frame with `Sandboxed = true`
+    (:253-254), the filter is evaluated on the event (:257), an error is logged and swallowed (:260-264), the
+    event is delivered to the subscribers of that filter iff the filter evaluated to a true value (:257-258,
+    :267-269).  Returns per filter (delivered, outcome of the evaluation) and the state afterwards — the state
+    is threaded through, errors roll nothing back. -/
+def pushEvent (cfg : Cfg) (fuel : Nat) : List Expr → Env → List (Bool × Outcome) × Env
+  | [], env => ([], env)
+  | f :: fs, env =>
+    let r := eval cfg true fuel f { env with locals := [] }
+    let d := match r.1 with
+      | .ok (v, _) => v.toBool
+      | .error _ => false
+    let rest := pushEvent cfg fuel fs r.2
+    ((d, outcomeOf r.1) :: rest.1, rest.2)
 
 /-- The model's observation of running `e` sandboxed from `env`: outcome and "did protected state change". -/
 def observe (cfg : Cfg) (fuel : Nat) (e : Expr) (env : Env) : Outcome × Bool :=
